@@ -15,7 +15,7 @@ Hypothesis HL : HashLaws H.
 Variable P : Params.
 Hypothesis HP : In P all_params.
 Variable fuel : nat.
-Hypothesis Hfuel : Z.of_nat fuel * lz P < 65536.
+Hypothesis Hfuel : (Z.of_nat fuel + 1) * lz P <= 65535.
 
 (* everything known about a generated key pair *)
 Lemma generated_key_facts xi pk sk : keygen_from_seed H P xi = Ok (pk, sk) ->
